@@ -42,7 +42,10 @@ RULE = ('operation scripts over 1..4 registers holding frequent_items_sketch<uin
         'purged and never-seen items, full dumps, get_frequent_items of both error types with default and explicit thresholds '
         '(0, 1, maximum error - 1, maximum error, maximum error + 1, large) on sketches in estimation mode; non-trivial = more distinct items than the map capacity (purges happen) or a merge '
         'or a round trip; fixed cases: merges into and from a sketch whose counters were all purged (same / different lg_max, lvalue / rvalue, '
-        'non-empty, purged-empty and exact-mode operands) followed by the getters for items of both histories')
+        'non-empty, purged-empty and exact-mode operands) followed by the getters for items of both histories; family fibig (implementation only, '
+        'no model run; exact counts kept in the oracle): lg_max 17/18, 60k-150k distinct uint64 and string items (tables grown to 2^17 / 2^18 slots, with and '
+        'without purges) plus heavy hitters: point queries of ~300 seen, the heavy and never-seen items, rows of get_frequent_items against the point queries, '
+        'result-set clauses, then a second batch of updates and the same again')
 TRUSTED = ['hash functors are defined in harness/drv_fi.cpp and modelled identically in coq/FiDefs.v (user_hash); fmix64 from coq/Murmur3.v',
            'std::nth_element postcondition (element at n/2 of the sorted sample) and std::sort (a permutation sorted by the comparator)',
            'serde<uint64_t> / serde<std::string> byte formats (8 bytes LE; u32 length + bytes) as modelled in FiDefs.ser_item',
@@ -411,7 +414,85 @@ def oracle(case, irecs, mrecs):
                 fail('not_descending', 'get_frequent_items rows are not in descending estimate order: %s' % (ests[:20],), i)
     return fails
 
-FAMILIES = [dict(name='fi', harness='drv_fi.cpp', extract='Extract_fi.v', model='model_fi', gen=gen, oracle=oracle)]
+# ---------------------------------------------------------------------------------------------
+# family fibig: implementation only (tables of 2^17 / 2^18 slots are beyond the list-based model); exact ground truth is kept here
+# ---------------------------------------------------------------------------------------------
+def big_item(kind, v):
+    return [v] if kind == 0 else list(('k%d' % v).encode())
+
+def gen_big(rng, tier):
+    cases = []
+    specs = [(0, 17, 60000), (0, 18, 150000), (0, 17, 150000), (2, 17, 60000)]
+    if tier != 'quick':
+        specs += [(2, 18, 120000), (0, 17, 98305)]
+    for ci, (kind, lgm, n) in enumerate(specs):
+        base = 1000 + ci; stride = 7 + 2 * ci; wmod = 3
+        heavy = [(base + stride * (n // 7) * k, 5000 + 37 * k) for k in range(1, 6)]             # seen items made heavy
+        ops = [[1, 0, kind, lgm, 3], [20, 0, n, base, stride, wmod]]
+        ops += [[2, 0, w] + big_item(kind, v) for v, w in heavy]
+        sample = [base + stride * i for i in sorted(set(rng.randrange(n) for _ in range(300)) | {0, 1, n - 1})]
+        qs = sample + [v for v, _ in heavy] + [base + stride * n, 5, 2**40 + 1]                    # the last three: never seen
+        ops += [[3, 0, 0] + big_item(kind, v) for v in qs]
+        ops += [[21, 0, 1, 0, 0], [21, 0, 0, 0, 0], [21, 0, 1, 1, 1000], [6, 0, 1, 1, 1000], [6, 0, 0, 1, 1000], [6, 0, 1, 1, 5100]]
+        # continue after the queries: a second batch over the same items, then again
+        ops += [[20, 0, n // 3, base, stride, 2]] + [[3, 0, 0] + big_item(kind, v) for v in qs[::4]] + [[21, 0, 1, 1, 1000]]
+        cases.append(dict(id='fibig%d' % ci, ops=ops, tags=['large-table', 'lg_max-%d' % lgm, 'strings' if kind else 'uint64'], kind=kind))
+    return cases
+
+def oracle_big(case, irecs, mrecs):
+    fails = []
+    truth = {}; total = 0
+    kind = case['kind']
+    def fail(sig, what, i):
+        if len(fails) < 20:
+            fails.append(dict(sig=sig, what=what, op_index=i))
+    for i, op in enumerate(case['ops']):
+        if i >= len(irecs):
+            break
+        R = irecs[i]['R']
+        c = op[0]
+        if c == 20:
+            n, base, stride, wmod = op[2:6]
+            for j in range(n):
+                k = tuple(big_item(kind, base + j * stride)); w = 1 + j % wmod
+                truth[k] = truth.get(k, 0) + w; total += w
+            if R != [1]:
+                fail('big_update_refused', 'bulk update refused: %s' % R[:3], i)
+        elif c == 2:
+            k = tuple(op[3:]); truth[k] = truth.get(k, 0) + op[2]; total += op[2]
+        elif c == 3 and len(R) == 6:
+            est, lb, ub, maxerr, tot, nact = R; tw = truth.get(tuple(op[3:]), 0)
+            name = 'item %s' % (op[3:],)
+            if lb > tw: fail('lb_above_true', '%s: lower bound %d above true weight %d' % (name, lb, tw), i)
+            if ub < tw: fail('ub_below_true', '%s: upper bound %d below true weight %d (large table)' % (name, ub, tw), i)
+            if not (lb <= est <= ub): fail('est_outside_bounds', '%s: lb %d <= est %d <= ub %d violated' % (name, lb, est, ub), i)
+            if ub - lb != maxerr: fail('ub_minus_lb_ne_max_error', '%s: ub %d - lb %d != maximum error %d' % (name, ub, lb, maxerr), i)
+            if tot != total: fail('total_weight', 'total weight %d != sum of update weights %d' % (tot, total), i)
+        elif c == 21 and len(R) >= 2:
+            if R[1] != 0:
+                fail('rows_disagree_with_point_queries', '%d of %d rows of get_frequent_items carry bounds other than get_estimate/get_lower_bound/get_upper_bound of '
+                     'their item; first: %s' % (R[1], R[0], R[2:]), i)
+        elif c == 6 and len(R) >= 2:
+            n, maxerr = R[0], R[1]
+            rows = parse_rows(R[2:], 3)
+            thr = maxerr if op[3] == 0 else op[4]
+            got = set(it for it, _ in rows)
+            for it, v in rows:
+                tw = truth.get(it, 0)
+                if not (v[1] <= tw <= v[2]) or not (v[1] <= v[0] <= v[2]) or v[2] - v[1] != maxerr:
+                    fail('row_bounds', 'row %s: est %d lb %d ub %d, true weight %d, maximum error %d' % (it, v[0], v[1], v[2], tw, maxerr), i)
+            if op[2] == 1 and thr >= maxerr:
+                miss = [it for it, w in truth.items() if w > thr and it not in got]
+                if miss:
+                    fail('nfn_missing', 'NO_FALSE_NEGATIVES (threshold %d >= maximum error %d) omits item %s of true weight %d' % (thr, maxerr, miss[0], truth[miss[0]]), i)
+            if op[2] == 0:
+                bad = [it for it in got if truth.get(it, 0) <= thr]
+                if bad:
+                    fail('nfp_false_positive', 'NO_FALSE_POSITIVES (threshold %d) returns item %s of true weight %d' % (thr, bad[0], truth.get(bad[0], 0)), i)
+    return fails
+
+FAMILIES = [dict(name='fi', harness='drv_fi.cpp', extract='Extract_fi.v', model='model_fi', gen=gen, oracle=oracle),
+            dict(name='fibig', harness='drv_fi.cpp', extract=None, model=None, gen=gen_big, oracle=oracle_big, impl_timeout=600)]
 
 MANIFEST = dict(
     level_text=('Theorems (coq/Properties_C12.v, 25, axiom-free). PROVED for the executable model that is extracted and run against the code '
